@@ -51,10 +51,19 @@ def _detect():
     trav = bool(re.search(r'scope\.get_kind\(\) != LuaScopeKind::ForRange \|\| self\.is_in_loop_body\(scope, position\)', vvd))
     enc = bool(re.search(r'LuaAst::LuaForStat\(stat\) => \{\s*analyzer\.create_scope\(stat\.get_range\(\), LuaScopeKind::ForRange\);',
                          X.read_source(repo, BUILDER_MOD)))
-    return dup, trav, enc
+    # BODY: the body block of a for / repeat statement is identified by its scope kind LoopBody (builder + all three places of the traversal)
+    scope_rs = X.read_source(repo, SCOPE)
+    marks = [bool(re.search(r'\bLoopBody,', scope_rs)),
+             bool(re.search(r'fn block_scope_kind\(', X.read_source(repo, BUILDER_MOD))),
+             len(re.findall(r'get_kind\(\) == LuaScopeKind::LoopBody', vvd)) == 2,
+             trav and bool(re.search(r'body\.get_kind\(\) == LuaScopeKind::LoopBody',
+                                     X.find_item(repo, {'file': TREE, 'kind': 'fn', 'impl': 'LuaDeclarationTree', 'name': 'is_in_loop_body'}).raw))]
+    if any(marks) and not all(marks):
+        raise Undecided('c13_scope: the LoopBody scope kind is used only in part of {scope.rs, decl/mod.rs, visit_visible_decls, is_in_loop_body}: %s' % marks)
+    return dup, trav, enc, all(marks)
 
 
-DUP, TRAV, ENC = _detect()
+DUP, TRAV, ENC, BODY = _detect()
 HDR = TRAV and ENC          # loop headers repaired: the code's reading of `visible` is Lua's at every position
 
 
@@ -710,15 +719,19 @@ def _template():
            '/// visit_visible_decls searches a ForRange scope, when it is not the entry scope, only from its body (is_in_loop_body)\n'
            'pub open spec fn hdr_trav() -> bool { %s }\n'
            '/// the builder gives the numeric for (LuaForStat) the scope kind ForRange\n'
-           'pub open spec fn enc_for() -> bool { %s }' % (b(DUP), b(TRAV), b(ENC)))
+           'pub open spec fn enc_for() -> bool { %s }\n'
+           '/// the builder gives the body block of a for / repeat statement the scope kind LoopBody and the traversal identifies the body by it\n'
+           'pub open spec fn body_kind() -> bool { %s }\n'
+           'pub open spec fn is_lbk(k: LuaScopeKind) -> bool { %s }' % (b(DUP), b(TRAV), b(ENC), b(BODY), 'k == LuaScopeKind::LoopBody' if BODY else 'false'))
     t = t.replace('//%%C13_CONFIG%%', cfg)
     t = t.replace('//%%C13_LOOP_BODY%%', '//@@ LuaDeclarationTree::is_in_loop_body' if TRAV else '')
-    t = t.replace('//%%C13_WITNESSES%%', w.replace('W_FOR_KIND', 'LuaScopeKind::ForRange' if ENC else 'LuaScopeKind::Normal'))
+    t = t.replace('//%%C13_WITNESSES%%', w.replace('W_FOR_KIND', 'LuaScopeKind::ForRange' if ENC else 'LuaScopeKind::Normal')
+                  .replace('W_BODY_KIND', 'LuaScopeKind::LoopBody' if BODY else 'LuaScopeKind::Normal'))
     return t
 
 
 UNIT['template_text'] = _template()
-UNIT['shape'] = {'dup_fixed': DUP, 'hdr_trav': TRAV, 'enc_for': ENC}
+UNIT['shape'] = {'dup_fixed': DUP, 'hdr_trav': TRAV, 'enc_for': ENC, 'body_kind': BODY}
 # (reverting the reverse walk of the repaired visit_child_scope is not a text mutant: it IS today's shape, which the unit detects and on which it
 # exits 1 exactly at C13.lookup.duplicate-names-later-wins)
 if TRAV:
